@@ -56,7 +56,7 @@ REQUIRED_BRANCHES = ['filter_increasing_nu', 'filter_decreasing_nu', 'sed_increa
                      'cube_from_wav_only',
                      'notch_filter', 'rebinned_interior_zero', 'package_cube_interior_zero', 'package_files_interior_zero',
                      'hist_normalize', 'hist_assign_response', 'hist_assign_both', 'hist_grid']
-ASSUMPTIONS = ['every R_i is also compared on its own scale: |impl - model| <= 1e-9 |R_i| + 1e-13 w_i ymax_i + 1e-15 nu_i ymax_i (w_i the '
+ASSUMPTIONS = ['every R_i is also compared on its own scale: |impl - model| <= 1e-9 |R_i| + 1e-13 w_i ymax_i + 1e-15 nu_i ymax_i + 1e-20 sum|R| (w_i the '
                'clipped bin width, ymax_i the largest response among the nodes in / bracketing the bin), so that bins in a leak tail '
                '13-15 decades below the main lobe are checked to their own magnitude',
                'IEEE rounding is not modelled: responses compared within 1e-9 of sum|R_i|, fluxes within 1e-9 of '
@@ -710,7 +710,7 @@ def property_on_rebin(flt, nus_held, grid, resp):
     tol9 = Fraction(1, 10 ** 6) if flt.get('r_dtype') == 'f4' else Fraction(1, 10 ** 9)
     budget = bin_budgets(dict(flt, nus=nus_held), grid) if flt.get('r_dtype') != 'f4' and len(got) == len(want) else None
     for i, (a, b) in enumerate(zip(got, want)):
-        if budget is not None and abs(float(a) - float(b)) > 1e-9 * abs(float(b)) + budget[i]:
+        if budget is not None and abs(float(a) - float(b)) > 1e-9 * abs(float(b)) + budget[i] + 1e-20 * float(sum(abs(float(x)) for x in want)):
             return ('bin %d: Filter.rebin gives R_i = %r, exact integral of the response over the bin is %r: off by %.3g of the '
                     'bin\'s own value (rounding budget of this bin %.3g; sum|R| = %r)'
                     % (i, float(a), float(b), abs(float(a) - float(b)) / abs(float(b)) if b else float('inf'), budget[i],
@@ -824,7 +824,10 @@ def check_rebin(f, cur, grid_in, gunit, drv, label, info=None):
         # bin edges measured against the largest response the bin (and its bracketing nodes) sees — not against sum|R|
         budget = bin_budgets(cur, grid)
         for i, (a, m) in enumerate(zip(resp, model)):
-            if not abs(float(a) - float(m)) <= 1e-9 * abs(float(m)) + budget[i]:
+            # (+ 1e-20 sum|R|: a bin edge displaced by one ulp next to a node whose response is 0 changes the integral
+            # by slope x ulp^2 - second order, invisible to the first-order budget; fourteen and more orders of
+            # magnitude below the leak tails (1e-13 .. 1e-15 of the peak) this criterion exists for)
+            if not abs(float(a) - float(m)) <= 1e-9 * abs(float(m)) + budget[i] + 1e-20 * scale:
                 bad = ('bin %d (nu=%r): Filter.rebin R_i = %r, model (exact integral over the clipped bin) = %r: off by %.3g of '
                        'the bin\'s own value (rounding budget of this bin %.3g, sum|R| = %r)'
                        % (i, grid[i], float(a), float(m), abs(float(a) - float(m)) / abs(float(m)) if float(m) else float('inf'),
@@ -1337,11 +1340,16 @@ def search(seed, tier, disagreeing_cases):
 def shrink(case):
     """drop the package, then shorten grid and filter while the case still fails"""
     def fails(c):
+        # a smaller case counts only if the PROPERTY fails on it too - not if shortening made the case inconsistent
+        # (e.g. a filter shorter than the arrays it shares) and the harness itself trips over it
         try:
-            return not run_case(c).ok
+            r = run_case(c)
         except Exception:
-            return True
+            return False
+        return (not r.ok) and r.violates is True and 'raised ValueError: r has incorrect length' not in (r.detail or '')
     cur = case
+    if not fails(cur):
+        return case
     if cur.get('package'):
         c = dict(cur, package=None)
         if fails(c):
@@ -1361,7 +1369,7 @@ def shrink(case):
             continue
         flt = cur['filter']
         for i in range(len(flt['x'])):
-            if len(flt['x']) > 2:
+            if len(flt['x']) > 2 and not cur.get('shared'):
                 f2 = dict(flt, x=flt['x'][:i] + flt['x'][i + 1:], r=flt['r'][:i] + flt['r'][i + 1:])
                 if any(r > 0 for r in f2['r']):
                     c = dict(cur, filter=f2)
